@@ -26,7 +26,7 @@ from symx import Symx, Budget, K, render, lit_truth   # noqa: E402
 
 META = {
     'level': 'other',
-    'decides': 'gas constants and discount tables, the strict cost > limit test guarding every successful return with the same amount, the cost formulas (evaluated symbolically on breakpoint grids), the MODEXP pricing functions of both forks, and the mapping of precompile results to instruction results',
+    'decides': 'gas constants and discount tables, the strict cost > limit test guarding every successful return with the same amount, the cost formulas (evaluated symbolically on breakpoint grids), the MODEXP pricing functions of both forks, and the mapping of precompile results to instruction results; the EIP-152 input layout and the in-repo BLAKE2b compression (IV, SIGMA, G evaluated against RFC 7693, round wiring); the constant byte windows of every precompile against its EIP layout; the KZG point-evaluation and ECRECOVER decisions with their operand order; point/scalar pairing of the BLS MSMs; the BN254 pairing element wiring and verdict',
     'does_not_decide': 'the cryptographic outputs and the input validation of the underlying libraries (k256/secp256k1, sha2, ripemd, substrate-bn, blst, c-kzg, aurora-engine-modexp)',
     'explanation': 'Const evaluation (incl. static tables); path enumeration of each entry point with guards and returns as symbolic expressions; evaluation of the extracted expressions on finite grids against reference formulas.',
 }
